@@ -27,6 +27,7 @@ LEVEL_ASSUMPTIONS = ["oracle: own average-rank computation and BFS table of "
 
 def REQUIRED(tier):  # noqa: N802
     return {"instances_judged": 1000, "with_duplicates": 300,
+            "big_instances_judged": 20,
             "ties_inside_horizon": 300, "beyond_horizon_entries": 1000,
             "swap_pairs": 518400 + 14400 + 576 + 36 + 4 + 1
             if tier == "quick" else 25_000_000}
@@ -171,6 +172,21 @@ DISTS = {
 }
 
 
+SIZE_WINDOWS = (63, 64, 65, 66, 127, 128, 129, 130, 255, 256, 257, 258)
+
+
+def gen_big_sequence(rng):
+    """Object counts around 2^6, 2^7, 2^8 (index / distance types change
+    there), almost all objects distinct."""
+    k = int(rng.choice(SIZE_WINDOWS))
+    vals = [int(v) * 3 for v in rng.permutation(k)]
+    for _ in range(int(rng.integers(0, 3))):      # a few zero-distance twins
+        vals.append(vals[int(rng.integers(len(vals)))])
+    return {"dist": "absint", "vals": vals,
+            "power": float(rng.choice([1, 2])),
+            "horizon": int(rng.choice([1, 3, 100, 1000])), "big": True}
+
+
 def gen_sequence(rng):
     dk = str(rng.choice(list(DISTS)))
     k = int(rng.integers(1, 12))
@@ -248,7 +264,15 @@ def judge_instance(ctx, case):
     if inst.horizon != hz:
         ctx.violation("horizon-attribute", f"{inst.horizon} != {hz}", case)
     tie = False
-    for i in range(k):
+    rows_judged = range(k)
+    if k > 40:
+        # the pairwise flow clauses are cubic: a sample of rows (first, last,
+        # around the type limits) for large instances
+        rows_judged = sorted({0, 1, k - 1, k // 2, min(k - 1, 127),
+                              min(k - 1, 128), min(k - 1, 129)})
+        ctx.count("big_instances_judged")
+        ctx.count(f"big_n[{k}]")
+    for i in rows_judged:
         row = [df(reps[i][1], reps[j][1]) for j in range(k)]
         rk = avg_ranks(row)
         if int(Fl[i, i]) != 0:
@@ -324,7 +348,7 @@ def run_shard(ctx, args):
                     f"{args['maxlen']}", "example": [[2, 0, 1], [0, 1, 2]]})
         return
     for it in range(args["n"]):
-        case = gen_sequence(rng)
+        case = gen_big_sequence(rng) if it % 50 == 17 else gen_sequence(rng)
         case["kind"] = "inst"
         inst = judge_instance(ctx, case)
         if it % 200 == 0 and inst is not None:
